@@ -106,7 +106,13 @@ pub fn check(tier: Tier) -> i32 {
     let (acc, done) = par_blocks(jobs.len() as u64, &budget, |b, acc| {
         let (g, n) = jobs[b as usize];
         let s = (gens[g].2)(n);
-        long_eval(gens[g].0, gens[g].1, &s, acc);
+        let mut a = Acc::default();
+        long_eval(gens[g].0, gens[g].1, &s, &mut a);
+        // recorded by generator and size, not by text (replay regenerates it)
+        for (_, (_, v)) in a.viols.iter_mut() {
+            v.case = json!({"kind": "long", "generator": gens[g].0, "size": n});
+        }
+        acc.merge(a);
     });
     let n = acc.evals;
     rep.acc.merge(acc);
